@@ -1415,7 +1415,7 @@ func (c *Client) sendSingleMsg(client *smtp.Client, message *Msg) error {
 			client.SetDSNMailReturnOption(string(c.dsnReturnType))
 		}
 	}
-	if err = client.Mail(from); err != nil {
+	if err = client.Mail(smtpMailbox(from)); err != nil {
 		retError := &SendError{
 			Reason: ErrSMTPMailFrom, errlist: []error{err}, isTemp: isTempError(err),
 			affectedMsg: message, errcode: errorCode(err),
@@ -1433,7 +1433,7 @@ func (c *Client) sendSingleMsg(client *smtp.Client, message *Msg) error {
 	rcptNotifyOpt := strings.Join(c.dsnRcptNotifyType, ",")
 	client.SetDSNRcptNotifyOption(rcptNotifyOpt)
 	for _, rcpt := range rcpts {
-		if err = client.Rcpt(rcpt); err != nil {
+		if err = client.Rcpt(smtpMailbox(rcpt)); err != nil {
 			rcptSendErr.Reason = ErrSMTPRcptTo
 			rcptSendErr.errlist = append(rcptSendErr.errlist, err)
 			rcptSendErr.rcpt = append(rcptSendErr.rcpt, rcpt)
@@ -1493,6 +1493,44 @@ func (c *Client) sendSingleMsg(client *smtp.Client, message *Msg) error {
 		}
 	}
 	return nil
+}
+
+// smtpMailbox returns the given mail address in the form that is required for the reverse-path and
+// forward-path of the SMTP MAIL FROM and RCPT TO commands.
+//
+// The addresses of a Msg are stored in their parsed form, in which a quoted local part has been
+// unquoted (i. e. the address "john doe"@example.com is stored as: john doe@example.com). Within an SMTP
+// path a local part that is not a plain dot-string has to be written as quoted-string (see RFC 5321,
+// section 4.1.2). Otherwise characters like blanks or angle brackets would end the path early and the
+// remainder would be taken for ESMTP parameters.
+//
+// Parameters:
+//   - addr: The mail address as returned by Msg.GetSender or Msg.GetRecipients.
+//
+// Returns:
+//   - The mail address with its local part quoted, if required.
+func smtpMailbox(addr string) string {
+	at := strings.LastIndex(addr, "@")
+	if at <= 0 {
+		return addr
+	}
+	local, domain := addr[:at], addr[at:]
+	isDotString := !strings.HasPrefix(local, ".") && !strings.HasSuffix(local, ".") &&
+		!strings.Contains(local, "..")
+	for i := 0; i < len(local) && isDotString; i++ {
+		char := local[i]
+		switch {
+		case char >= 'a' && char <= 'z', char >= 'A' && char <= 'Z', char >= '0' && char <= '9':
+		case strings.IndexByte("!#$%&'*+-/=?^_`{|}~.", char) >= 0:
+		case char >= 0x80: // UTF-8 (SMTPUTF8)
+		default:
+			isDotString = false
+		}
+	}
+	if isDotString {
+		return addr
+	}
+	return `"` + strings.NewReplacer(`\`, `\\`, `"`, `\"`).Replace(local) + `"` + domain
 }
 
 // checkConn ensures that a required server connection is available and extends the connection
